@@ -75,8 +75,8 @@ func rulesC19(cx *Ctx) []Obligation {
 			}
 		}
 	}
-	if n < 7 {
-		obs = append(obs, undecided("C19/O19.1/floor", "the json.Unmarshal call sites are found", fmt.Sprintf("%d sites (7 confirmed by hand)", n)))
+	if n < 3 {
+		obs = append(obs, undecided("C19/O19.1/floor", "the json.Unmarshal call sites are found", fmt.Sprintf("%d sites (7 today; readers may share a decoding function)", n)))
 	}
 	// O19.2 raw decoder leaf types
 	if sp := P.SPkgs["types"]; sp != nil {
